@@ -162,8 +162,8 @@ def smat (codes : List Nat) : List W := (List.range Gen.apatAlphaLen).map (smatW
 
 /-! ## sequences -/
 
-/-- `EncodeSequence`: lower-case letters to 0..25, every other byte to 0 -/
-def encodeByte (c : UInt8) : Nat := if isLower c then c.toNat - 97 else 0
+/-- `EncodeSequence`: lower-case letters to 0..25, every other byte to `NOT_A_NUC = 'z' - 'a'` (no IUPAC class contains it) -/
+def encodeByte (c : UInt8) : Nat := if isLower c then c.toNat - 97 else 25
 
 /-- `SetSequence` lower-cases (A-Z only) -/
 def lowerByte (c : UInt8) : UInt8 := if isUpper c then c ||| 0x20 else c
@@ -427,6 +427,11 @@ def shiftBracket : Nat → Array UInt8 → Nat → Option (Array UInt8 × Nat)
       | some a' => shiftBracket fuel a' (sb + 1)
     else some (a, sb)
 
+/-- `while (st > str && *st != '[') st--` -/
+def backToLBr (a : Array UInt8) : Nat → Nat → Nat
+  | 0, st => st
+  | fuel + 1, st => if st > 0 && rd a st != chLBr then backToLBr a fuel (st - 1) else st
+
 /-- the modifier fix-up loop of `reverseSequence(str, isPattern = 1)`: `for (; sb <= se; sb++)`, `se = len-1` -/
 def fixLoop : Nat → Array UInt8 → Nat → Option (Array UInt8)
   | 0, _, _ => none
@@ -458,14 +463,15 @@ def fixLoop : Nat → Array UInt8 → Nat → Option (Array UInt8)
             | none => none
             | some a2 => fixLoop fuel a2 (sb + 2)
       else if c == chBang then
+        -- `st = sb-1; if (*st=='#' && st > str) st--; if (*st==']') while (st > str && *st!='[') st--;
+        --  memmove(st+1, st, sb-st); *st = '!'`
         if sb == 0 then none
         else
-          match wr a sb (rd a (sb - 1)) with
-          | none => none
-          | some a1 =>
-            match wr a1 (sb - 1) chBang with
-            | none => none
-            | some a2 => fixLoop fuel a2 (sb + 1)
+          let st := sb - 1
+          let st := if rd a st == chHash && st > 0 then st - 1 else st
+          let st := if rd a st == chRBr then backToLBr a st st else st
+          let l := a.toList
+          fixLoop fuel (l.take st ++ chBang :: ((l.drop st).take (sb - st) ++ l.drop (sb + 1))).toArray (sb + 1)
       else fixLoop fuel a (sb + 1)
 
 /-- `ecoComplementPattern`: complement each character, reverse, re-attach the modifiers; `none` = the C code
